@@ -542,6 +542,8 @@ class LinkBench:
                         if (ph, hot) != (st["ph"], st.get("phhot", False)):
                             st["ph"], st["phhot"] = ph, hot
                             log({"e": "txph", "ph": ph, "hot": hot}, quiet_reset=False)
+                            if hot:
+                                st["exp"] = 0          # the partner, too, restarts its sequence numbers after a hot reset
                     elif kind == "ts_set":
                         if st["dts"][0] == x[1]:
                             st["dts"][1] += 1
